@@ -1619,6 +1619,14 @@ pub fn for_each_expr_with_conds<'a>(b: &'a syn::Block, f: &mut dyn FnMut(&'a syn
                         self.conds.pop();
                     }
                 }
+                syn::Expr::Binary(b) if matches!(b.op, syn::BinOp::And(_) | syn::BinOp::Or(_)) => {
+                    // short circuit: the right operand is evaluated only if the left one is true (&&) / false (||)
+                    self.visit_expr(&b.left);
+                    let l = tsc(&b.left);
+                    self.conds.push(if matches!(b.op, syn::BinOp::And(_)) { l } else { format!("!{}", l) });
+                    self.visit_expr(&b.right);
+                    self.conds.pop();
+                }
                 _ => syn::visit::visit_expr(self, e),
             }
         }
